@@ -1,6 +1,272 @@
-//! C20 monitor (not built yet)
-use vcore::{Args, Report};
+//! C20 — event logging is well-formed and purely observational.
+//!
+//! (a) Every `qevent::Event` captured from real client and server lifetimes (handshake, transfer
+//!     under faults, loss, close) must serialise to a JSON object carrying `time`, `name`, `data`
+//!     (and `group_id`, which the connection span always carries), parse back to an equal event
+//!     (numbers compared with 1e-12 relative tolerance: serde_json without `float_roundtrip` may
+//!     return the neighbouring f64), and convert to the legacy format without panicking.
+//!     L1 builders cover boundary field values of hand-built events.
+//! (b) Differential: the same seeded scenario is run with every exporter configuration (no qlog
+//!     call, no-op logger, capturing, capturing+filter, capturing+raw data); the application-visible
+//!     outcome record must be identical.
+use serde_json::{Value, json};
+use vcore::{Args, Report, Rng};
 
-pub fn run(_args: &Args, rep: &mut Report) {
-    rep.inconclusive("monitor not built yet");
+use crate::{
+    c02,
+    scenario::{self, Outcome},
+    world::LogMode,
+};
+
+fn num_eq(a: f64, b: f64) -> bool {
+    if a == b {
+        return true;
+    }
+    let d = (a - b).abs();
+    d <= 1e-12 * a.abs().max(b.abs())
+}
+
+/// structural equality of JSON values with float tolerance
+pub fn json_eq(a: &Value, b: &Value) -> bool {
+    match (a, b) {
+        (Value::Number(x), Value::Number(y)) => {
+            if let (Some(x), Some(y)) = (x.as_u64(), y.as_u64()) {
+                return x == y;
+            }
+            if let (Some(x), Some(y)) = (x.as_i64(), y.as_i64()) {
+                return x == y;
+            }
+            match (x.as_f64(), y.as_f64()) {
+                (Some(x), Some(y)) => num_eq(x, y),
+                _ => false,
+            }
+        }
+        (Value::Array(x), Value::Array(y)) => x.len() == y.len() && x.iter().zip(y).all(|(p, q)| json_eq(p, q)),
+        (Value::Object(x), Value::Object(y)) => x.len() == y.len() && x.iter().all(|(k, v)| y.get(k).is_some_and(|w| json_eq(v, w))),
+        _ => a == b,
+    }
+}
+
+pub struct EventCheck {
+    pub checked: u64,
+    pub legacy_ok: u64,
+    pub legacy_unsupported: u64,
+}
+
+/// Returns findings (clause, what, sample json)
+pub fn check_event(e: &qevent::Event, want_group: bool) -> Vec<(String, String, Value)> {
+    let mut f = vec![];
+    let text = match vcore::panics::catch(|| serde_json::to_string(e)) {
+        Ok(Ok(t)) => t,
+        Ok(Err(err)) => {
+            f.push(("serialize.error".into(), format!("event does not serialise: {err}"), json!(format!("{e:?}").chars().take(300).collect::<String>())));
+            return f;
+        }
+        Err(p) => {
+            f.push((format!("panic:{}", vcore::panics::short_location(&p.location)), format!("serialising an event panicked: {}", p.message), Value::Null));
+            return f;
+        }
+    };
+    let v: Value = match serde_json::from_str(&text) {
+        Ok(v) => v,
+        Err(err) => {
+            f.push(("wellformed.not-json".into(), format!("serialised event is not JSON: {err}"), json!(text.chars().take(300).collect::<String>())));
+            return f;
+        }
+    };
+    let name = v.get("name").and_then(|n| n.as_str()).unwrap_or("?").to_string();
+    let Some(obj) = v.as_object() else {
+        f.push(("wellformed.not-object".into(), "serialised event is not a JSON object".into(), v.clone()));
+        return f;
+    };
+    for k in ["time", "name", "data"] {
+        if !obj.contains_key(k) {
+            f.push((format!("wellformed.missing-{k}:{name}"), format!("event {name} lacks the mandatory field `{k}`"), v.clone()));
+        }
+    }
+    if !obj.get("time").is_some_and(|t| t.as_f64().is_some_and(|x| x.is_finite())) {
+        f.push((format!("wellformed.time:{name}"), format!("event {name}: `time` is not a finite number"), v.clone()));
+    }
+    if !obj.get("data").is_some_and(|d| d.is_object()) {
+        f.push((format!("wellformed.data:{name}"), format!("event {name}: `data` is not an object"), v.clone()));
+    }
+    if want_group && !obj.get("group_id").is_some_and(|g| g.as_str().is_some_and(|s| !s.is_empty())) {
+        f.push((format!("wellformed.group-id:{name}"), format!("event {name} emitted inside a connection span carries no group_id"), v.clone()));
+    }
+    // parse back
+    match vcore::panics::catch(|| serde_json::from_str::<qevent::Event>(&text)) {
+        Ok(Ok(back)) => {
+            // compare text with text: `to_value` widens f32 fields, the textual form does not
+            let v2: Value = serde_json::to_string(&back).ok().and_then(|t| serde_json::from_str(&t).ok()).unwrap_or(Value::Null);
+            if !json_eq(&v, &v2) {
+                f.push((format!("roundtrip.differs:{name}"), format!("event {name} parses back to a different event"), json!({"original": v, "parsed": v2})));
+            }
+        }
+        Ok(Err(err)) => {
+            f.push((format!("roundtrip.parse:{name}"), format!("event {name} does not parse back: {err}"), v.clone()));
+        }
+        Err(p) => {
+            f.push((format!("panic:{}", vcore::panics::short_location(&p.location)), format!("parsing an event back panicked: {}", p.message), v.clone()));
+        }
+    }
+    // legacy conversion must not panic (an Err for event kinds the legacy format lacks is fine)
+    let ev = e.clone();
+    if let Err(p) = vcore::panics::catch(move || {
+        let _ = qevent::legacy::Event::try_from(ev).map(|l| serde_json::to_string(&l));
+    }) {
+        f.push((format!("legacy.panic:{name}"), format!("converting {name} to the legacy format panicked: {} at {}", p.message, vcore::panics::short_location(&p.location)), v.clone()));
+    }
+    f
+}
+
+/// application-visible outcome record (entropy-independent facts only)
+pub fn outcome_record(out: &Outcome) -> Value {
+    let s = &out.shared;
+    json!({
+        "handshake": s.handshake_ms.is_some(),
+        "finished": out.finished,
+        "jobs": s.jobs.iter().map(|j| json!({"kind": j.kind, "size": j.size, "wrote": j.wrote, "write_done": j.write_done, "read": j.read,
+            "eof": j.eof, "bad": j.bad_at.is_some(), "write_err": j.write_err.is_some(), "read_err": j.read_err.is_some(), "open_err": j.open_err})).collect::<Vec<_>>(),
+        "server_uni": s.server_uni.iter().map(|(sid, r)| json!([sid, r.0, r.1, r.2.is_some(), r.3.is_some()])).collect::<Vec<_>>(),
+        "client_term": s.client_term,
+        "server_term": s.server_term,
+        "panics": out.panics.len(),
+    })
+}
+
+fn differential(rep: &mut Report, rng: &mut Rng, sseed: u64) {
+    // bounded faults that end early, clean close: the outcome is determined by the workload
+    let mut case = c02::gen_bounded(rng, sseed);
+    // keep it cheap: five runs of the same scenario
+    for j in case.spec.jobs.iter_mut() {
+        j.size = j.size.min(80_000);
+    }
+    let configs: [(LogMode, bool, &str); 5] = [
+        (LogMode::Noop, false, "no-qlog-call"),
+        (LogMode::Noop, true, "noop-logger"),
+        (LogMode::Capture, true, "capture"),
+        (LogMode::Filtered, true, "capture-filtered"),
+        (LogMode::Raw, true, "capture-raw"),
+    ];
+    let mut base: Option<(Value, &str)> = None;
+    for (mode, with_qlog, label) in configs {
+        let mut spec = case.spec.clone();
+        spec.log = mode;
+        spec.with_qlog = with_qlog;
+        let out = scenario::run(&spec);
+        let rec = outcome_record(&out);
+        rep.count(&format!("differential_runs_{label}"));
+        rep.add(&format!("events_seen_{label}"), out.events.len() as u64);
+        for p in &out.panics {
+            let loc = vcore::panics::short_location(&p.location);
+            rep.violation(format!("C20.panic:{loc}"), format!("panic with exporter config {label}: {} at {loc}", p.message), json!({"kind": "c20-diff", "case": case.to_json(), "config": label}));
+        }
+        if mode == LogMode::Filtered {
+            let leaked = out.events.iter().filter(|(_, e)| serde_json::to_value(e).ok().and_then(|v| v["name"].as_str().map(|n| n.contains("recovery"))).unwrap_or(false)).count();
+            rep.add("filtered_events_that_passed_filter_check", out.events.len() as u64);
+            if leaked > 0 {
+                // schemes are namespaces like "quic:recovery_metrics_updated"; what the filter receives is decided by the library
+                rep.add("filtered_scheme_events_still_emitted", leaked as u64);
+            }
+        }
+        match &base {
+            None => base = Some((rec, label)),
+            Some((b, bl)) => {
+                if *b != rec {
+                    rep.violation(
+                        format!("C20.differential:{label}"),
+                        format!("application-visible outcome differs between exporter configs {bl} and {label}"),
+                        json!({"kind": "c20-diff", "case": case.to_json(), "config": label, "base": b, "other": rec}),
+                    );
+                } else {
+                    rep.count("differential_pairs_equal");
+                }
+            }
+        }
+    }
+}
+
+fn check_outcome_events(rep: &mut Report, out: &Outcome, ctx: &Value) {
+    for (_vp, e) in &out.events {
+        rep.count("events_checked");
+        let fs = check_event(e, true);
+        if let Ok(v) = serde_json::to_value(e) {
+            if let Some(n) = v["name"].as_str() {
+                rep.set("event_kinds", vcore::fnv_str(n));
+                rep.count(&format!("kind_{}", n.replace(':', "_")));
+                // distinct = (event kind, set of data keys)
+                let keys: Vec<&String> = v["data"].as_object().map(|o| o.keys().collect()).unwrap_or_default();
+                rep.distinct(vcore::fnv_str(&format!("{n}{keys:?}")));
+            }
+        }
+        for (clause, what, sample) in fs {
+            rep.violation(format!("C20.{clause}"), what, json!({"kind": "c20-event", "context": ctx, "event": sample}));
+        }
+    }
+    for p in &out.panics {
+        let loc = vcore::panics::short_location(&p.location);
+        rep.violation(format!("C20.panic:{loc}"), format!("panic while logging was enabled: {} at {loc}", p.message), json!({"kind": "c20-event", "context": ctx}));
+    }
+}
+
+pub fn run(args: &Args, rep: &mut Report) {
+    rep.rule = "events: every qlog event captured from both vantage points of generated lossy scenarios; distinct = distinct (event name, set of data keys); \
+                differential: one scenario x 5 exporter configurations, outcome records compared"
+        .into();
+    if let Some(path) = args.get("replay") {
+        let v: Value = serde_json::from_str(&std::fs::read_to_string(path).unwrap()).unwrap();
+        let v = if v.get("replay").is_some() { v["replay"].clone() } else { v };
+        match v["kind"].as_str() {
+            Some("c20-diff") => {
+                let case = c02::Case::from_json(&v["case"]);
+                let mut rng = Rng::new(case.spec.seed);
+                let _ = &mut rng;
+                // re-run all configurations of the recorded case
+                let configs: [(LogMode, bool, &str); 5] = [(LogMode::Noop, false, "no-qlog-call"), (LogMode::Noop, true, "noop-logger"), (LogMode::Capture, true, "capture"), (LogMode::Filtered, true, "capture-filtered"), (LogMode::Raw, true, "capture-raw")];
+                let mut base: Option<Value> = None;
+                for (mode, with_qlog, label) in configs {
+                    let mut spec = case.spec.clone();
+                    spec.log = mode;
+                    spec.with_qlog = with_qlog;
+                    let out = scenario::run(&spec);
+                    let rec = outcome_record(&out);
+                    match &base {
+                        None => base = Some(rec),
+                        Some(b) if *b != rec => rep.violation(format!("C20.differential:{label}"), "outcome differs".to_string(), v.clone()),
+                        _ => {}
+                    }
+                }
+            }
+            _ => {
+                // event-level replay: re-run the recorded scenario context and re-check its events
+                let case = c02::Case::from_json(&v["context"]);
+                let out = scenario::run(&case.spec);
+                check_outcome_events(rep, &out, &v["context"]);
+            }
+        }
+        rep.evaluations += 1;
+        return;
+    }
+    let thorough = args.get("tier") == Some("thorough");
+    let shard = args.u64("shard", 0);
+    let n = args.budget(if thorough { 60 } else { 3 });
+    let mut rng = Rng::new(args.seed() ^ 0xc20).fork(shard);
+    for i in 0..n {
+        let sseed = rng.next_u64();
+        let mut r = rng.fork(i);
+        // (a) events of a lossy lifetime, alternating capture / raw
+        let mut case = if i % 3 == 2 { c02::gen_unbounded(&mut r, sseed, 0) } else { c02::gen_bounded(&mut r, sseed) };
+        case.spec.log = if i % 2 == 0 { LogMode::Capture } else { LogMode::Raw };
+        let out = scenario::run(&case.spec);
+        rep.evaluations += 1;
+        check_outcome_events(rep, &out, &case.to_json());
+        if i == 0 {
+            if let Some((vp, e)) = out.events.iter().find(|(_, e)| serde_json::to_value(e).ok().is_some_and(|v| v["name"] == "quic:packet_sent")) {
+                rep.sample(json!({"vantage": format!("{vp:?}"), "event": serde_json::to_value(e).unwrap_or(Value::Null)}));
+            }
+        }
+        // (b) differential
+        differential(rep, &mut r, sseed ^ 0xd1ff);
+        rep.evaluations += 5;
+    }
 }
